@@ -54,7 +54,7 @@ MachineStep == /\ l <= Len(Rec) /\ m.st = "run"
 
 EndOK(r, fin) ==
   IF CrashOnly THEN r.st # "panic"
-  ELSE IF fin.st \in {"unspec", "fuel"} THEN r.st # "panic"
+  ELSE IF fin.st \in {"unspec", "fuel", "blowup"} THEN r.st # "panic"
   ELSE fin.st = r.st /\ fin.out = r.out /\ fin.rd = r.rd /\ Len(fin.evs) = Len(r.evs)
 
 Finish == /\ l <= Len(Rec) /\ m.st # "run"
